@@ -88,6 +88,32 @@ if ok:
                 except Exception as e:  # noqa: BLE001
                     desc = "unrenderable:" + type(e).__name__
             table.append([m, name, kind, desc])
+            # the public names a public CLASS of the package binds in its own namespace (class-level constants, registries,
+            # ordinals ...) are public names too: "X.kind" denotes the same thing whatever was imported first
+            # (round 10, seeded/C20j: ordinals handed out by __init_subclass__ in module execution order)
+            if isinstance(obj, type) and getattr(obj, "__module__", "").startswith(PKG) and obj.__module__ == PKG + "." + m:
+                import functools
+                for n2 in sorted(vars(obj)):
+                    if n2.startswith("_"):
+                        continue
+                    v2 = vars(obj)[n2]
+                    if isinstance(v2, (type, types.FunctionType, classmethod, staticmethod, property, functools.cached_property)) or \
+                            type(v2).__name__ in ("member_descriptor", "getset_descriptor", "method_descriptor", "wrapper_descriptor", "_lru_cache_wrapper"):
+                        continue
+
+                    def _r(x):
+                        if isinstance(x, type):
+                            return x.__module__ + "." + x.__qualname__
+                        if isinstance(x, (list, tuple)):
+                            return "[" + ",".join(_r(y) for y in x) + "]"
+                        if isinstance(x, dict):
+                            return "{" + ",".join(_r(k) + ":" + _r(v) for k, v in x.items()) + "}"
+                        return re.sub(r"0x[0-9a-fA-F]+", "0x", repr(x))
+                    try:
+                        d2 = _r(v2)[:400]
+                    except Exception as e:  # noqa: BLE001
+                        d2 = "unrenderable:" + type(e).__name__
+                    table.append([m, name + "." + n2, type(v2).__name__, d2])
     parts = sorted(sorted(g) for g in groups.values())
     table = {"names": table, "identity_partition": parts}
 print(json.dumps({"order": order, "forms": [f for f, _ in forms], "events": events, "ok": ok, "error": error, "table": table}))
